@@ -338,6 +338,12 @@ impl MqttState {
                 return Ok(None);
             }
 
+            // nothing is outstanding: this publish is the oldest unacknowledged one, whatever ids
+            // SUBSCRIBE / UNSUBSCRIBE have taken since the last puback. Retransmission starts here
+            if self.inflight == 0 {
+                self.last_puback = pkid.saturating_sub(1);
+            }
+
             // if there is an existing publish at this pkid, this implies that broker hasn't acked this
             // packet yet. This error is possible only when broker isn't acking sequentially
             self.outgoing_pub[pkid as usize] = Some(publish.clone());
